@@ -247,14 +247,21 @@ def lookUp (idx : List (Nat × Nat)) : Nat → Nat → Option Nat
     | some t => some t
     | none => lookUp idx f (d + 1)
 
-/-- the "horrible hack" loop of `Identify` / `BestConsensus`: the entry of the largest recorded distance
-`≤ d`; if there is none the smallest recorded distance `≤ 1000`; if there is none the Go loop never ends -/
+/-- the "horrible hack" loop of `Identify` / `BestConsensus` on an index whose entries are all well-formed
+(`taxid@name@rank` of a taxon of the taxonomy), closed form: the entry of the largest recorded distance `≤ d`;
+if there is none the smallest recorded distance `≤ 1000` (upward scan); if there is none the next iteration of
+the outer loop scans downwards from `d = 1001`, i.e. looks at the key 1001 (model repaired in the deepening
+round: the key 1001 was missing); if that fails too the Go loop repeats the same two scans for ever.  The loop
+itself is transcribed verbatim on the TEXT of the entries in `Model/TagSel.lean` (`selLoop`); the two are proved
+equal in `Lemmas/TagSel.lean` (`selectText_wellformed`). -/
 def selectEntry (idx : List (Nat × Nat)) (d : Nat) : Tax.Res Nat :=
   match lookDown idx d with
   | some t => .ok t
   | none => match lookUp idx 1001 0 with
     | some t => .ok t
-    | none => .error .hang
+    | none => match idxGet idx 1001 with
+      | some t => .ok t
+      | none => .error .hang
 
 /-- `taxon = taxon.LCA(match_taxon)` over the best references -/
 def consensus (t : Tax.Taxo) (fuel : Nat) : Option Nat → List Nat → Tax.Res (Option Nat)
